@@ -619,5 +619,6 @@ func namesOK(u *e3.Unit) bool {
 			return false
 		}
 	}
-	return len(u.FMFiles) > 0
+	// a file without messages has nothing to generate
+	return len(u.FMFiles) > 0 || len(u.File.FD.MessageType) == 0
 }
